@@ -1,3 +1,4 @@
+import rootmode
 from codecmode import run
 
 
@@ -5,4 +6,5 @@ def main(tier, seed, replay):
     return run("C01", "c01", tier, seed, replay, ["Props.C01", "Props.C01_ror2", "Props.C01_json"],
                "corr:codec-roundtrip (model encoder bytes and model decoder value vs the generated bindings, 5 wire formats)",
                assume=["JSON cannot carry strings that are not valid UTF-8: the JSON round trip is claimed for valid UTF-8 strings and keys "
-                       "(bytes and fixed: arbitrary); ROR2: arbitrary byte strings"])
+                       "(bytes and fixed: arbitrary); ROR2: arbitrary byte strings"],
+               post=rootmode.post("c01"))
